@@ -172,6 +172,9 @@ def arith(it, opn, a, b, node):
         ta = to_term(a)
         return Arr([mk(opn, ta, y) for y in ab.cols], ab.ndim, _space(ab, a), ab.single_row)
     if isinstance(a, (Val, Unk)) and isinstance(b, (Val, Unk)):
+        sa_, sb_ = getattr(a, "space", None), getattr(b, "space", None)
+        if sa_ is not None and sb_ is not None and not sa_.same(sb_) and opn not in ("and", "or"):
+            it.record("space-mismatch", "arith", [a, b], {}, node, {"left": sa_, "right": sb_})
         t = mk(opn, a.term, b.term)
         axes = imgdom.bcast_axes(getattr(a, "axes", None), getattr(b, "axes", None))
         if isinstance(a, Val) and isinstance(b, Val) or axes is not None:
@@ -358,6 +361,7 @@ def getattr_(it, base, attr, node, fr):
         if attr == "index":
             u = Unk(call("index", const(base.space.id if base.space else 0)), space=base.space)
             u.of_frame = base
+            u.is_index = True
             return u
         if attr == "T":
             return Unk(call("transpose", to_term(base)))
@@ -548,7 +552,10 @@ def getitem(it, base, idx, node, fr):
             lo = pyval(idx.lower) if idx.lower is not None else None
             hi = pyval(idx.upper) if idx.upper is not None else None
             stp = pyval(idx.step) if idx.step is not None else None
-            return Seq(base.items[slice(lo, hi, stp)], base.kind)
+            r_ = Seq(base.items[slice(lo, hi, stp)], base.kind)
+            if getattr(base, "of_frame", None) is not None:
+                r_.of_frame = base.of_frame
+            return r_
         if is_pyconst(idx) and isinstance(pyval(idx), int):
             try:
                 return base.items[pyval(idx)]
@@ -586,6 +593,11 @@ def getitem(it, base, idx, node, fr):
             u.axis = pyval(idx)
             return u
         r = Unk(call("getitem", base.term, to_term(idx)), space=base.space)
+        if getattr(base, "is_index", False):
+            r.is_label = True
+            r.label_of = getattr(base, "of_frame", None)
+            if getattr(idx, "is_label", False):
+                it.record("typing", "label-used-as-position", [base, idx], {}, node)
         if getattr(base, "rank", None) is not None:
             items_ = idx.items if isinstance(idx, Seq) and idx.kind == "tuple" else [idx]
             r.rank = base.rank - sum(1 for x_ in items_ if not isinstance(x_, SliceV))
@@ -779,6 +791,8 @@ def indexer_get(it, ix, idx, node, fr):
                 i0, i1 = f.order.index(lo), f.order.index(hi)
                 return frame_select(it, f, f.order[i0:i1 + 1], node)
             sel = _colsel(c)
+            if sel is None and isinstance(c, Seq) and all(is_pyconst(x) for x in c.items) and c.items:
+                sel = [pyval(x) for x in c.items]
             if isinstance(sel, str):
                 try:
                     s = series_of(f, sel)
@@ -923,6 +937,14 @@ def setitem(it, obj, idx, value, node, fr):
                     names = base.names()
                 else:
                     sel = _colsel(c)
+                    if sel is None and isinstance(c, Seq) and getattr(c, "of_frame", None) is not None and all(is_pyconst(x) for x in c.items):
+                        sel = [pyval(x) for x in c.items]
+                    if sel is None and obj.kind == "iloc" and isinstance(c, SliceV) and base.order is not None:
+                        lo_ = pyval(c.lower) if c.lower is not None else None
+                        hi_ = pyval(c.upper) if c.upper is not None else None
+                        sel = base.order[slice(lo_, hi_)]
+                    if sel is None and obj.kind == "iloc" and is_pyconst(c) and isinstance(pyval(c), int) and base.order is not None:
+                        sel = [base.order[pyval(c)]]
                     if sel is None:
                         if isinstance(c, SliceV) and base.order is not None and obj.kind == "loc":
                             lo, hi = pyval(c.lower), pyval(c.upper)
